@@ -18,8 +18,8 @@ inductive BExpr where
 deriving Inhabited, Repr
 
 inductive Effect where
-  | sset (k : String) (e : VExpr) | sinc (k : String) | smut (k : String) (x : Int)
-  | gset (k : String) (e : VExpr) | ginc (k : String) | gmut (k : String) (x : Int)
+  | sset (k : String) (e : VExpr) | sinc (k : String) | smut (k : String) (x : Int) | sdel (k : String)
+  | gset (k : String) (e : VExpr) | ginc (k : String) | gmut (k : String) (x : Int) | gdel (k : String)
 deriving Inhabited, Repr
 
 inductive When where
@@ -94,6 +94,8 @@ def applyEffect (hasState : Bool) (c : Ctx) : Effect → Ctx
   | .gset k e => { c with global := c.global.set k (evalV c e) }
   | .ginc k => { c with global := inc c.global k }
   | .gmut k x => { c with global := mutate c.global k x }
+  | .sdel k => if hasState then { c with state := c.state.filter (fun p => p.1 ≠ k) } else c
+  | .gdel k => { c with global := c.global.filter (fun p => p.1 ≠ k) }
 
 def fires (calli : Nat) : When → Bool
   | .always => true
